@@ -146,9 +146,9 @@ class GnssUBlox(UbxServerBase_):
                             self._parse_version(data_map)
                         elif msg_class == 'DEVICES':
                             self._parse_devices(data_map)
-                except json.decoder.JSONDecodeError:
+                except (json.decoder.JSONDecodeError, RecursionError):
                     # Decoding error will happen if NMEA or other
-                    # data is received here
+                    # data is received here (RecursionError: absurdly nested brackets)
                     pass
 
         except UnicodeDecodeError:
